@@ -12,6 +12,8 @@ try:
     shutil.copytree('/repo/yalafi', os.path.join(tmp, 'yalafi'))
     p = os.path.join(tmp, rel)
     s = open(p, newline='').read()
+    if old not in s and old.replace('\n', '\r\n') in s:
+        old = old.replace('\n', '\r\n'); new = new.replace('\n', '\r\n')
     if old not in s:
         print('PATTERN NOT FOUND'); sys.exit(9)
     s = s.replace(old, new, 1)
